@@ -655,25 +655,31 @@ class Rolling:
                 raise ValueError("min_periods must be >= 0")
         self.mp = mp
         ex = _ex.current()
-        if any(getattr(t, "f", None) is not None for t in s.index.arr.a):
-            raise Unsupported("rolling window over sub-second timestamps")
-        ts = [t.s for t in s.index.arr.a]
+        ts = self._tvals()
         for a, b in zip(ts, ts[1:]):
             ex.side_condition(a < b, "rolling over a non-increasing time index")
         if bool(P <= 0):
             raise Unsupported("non-positive rolling window")
+
+    def _tvals(self):
+        """index values as z3 terms: whole seconds (Int) when no stamp carries a sub-second part, else seconds as Reals"""
+        stamps = list(self.s.index.arr.a)
+        if any(getattr(t, "f", None) is not None for t in stamps):
+            return [z3.ToReal(t.s) + (t.f if getattr(t, "f", None) is not None else 0) for t in stamps]
+        return [t.s for t in stamps]
 
     def _windows(self):
         """For each i: list of member positions j<=i (forks on time membership)."""
         if self.P is None:
             n = len(self.s)
             return [list(range(max(0, i - self.k + 1), i + 1)) if self.k > 0 else [] for i in range(n)]
-        ts = [t.s for t in self.s.index.arr.a]
+        ts = self._tvals()
+        P = z3.ToReal(self.P.v) if ts and z3.is_real(ts[0]) else self.P.v
         out = []
         for i in range(len(ts)):
             mem = [i]
             for j in range(i - 1, -1, -1):
-                if bool(SBool(ts[i] - self.P.v < ts[j])):
+                if bool(SBool(ts[i] - P < ts[j])):
                     mem.append(j)
                 else:
                     break
